@@ -33,6 +33,7 @@
 (*                         (drained) / remap_throwable                     *)
 (*   Sig(h, s, got)        deobfuscate_signature                           *)
 (*   Typed(h, t, got)      remap_stacktrace_typed                          *)
+(*   Text(h, t, got)       remap_stacktrace (text)                         *)
 (*   IterBegin(i, h, fr)   remap_frame -> open iterator i                  *)
 (*   IterNextCall(i, got)  one next() call                                 *)
 (*                                                                         *)
@@ -57,6 +58,7 @@ CONSTANTS
   SigOf(_, _),          \* index, descriptor -> <<>> or <<result>>
   SigConstrained(_),    \* descriptor -> the statement says what the answer is
   TypedOf(_, _),        \* index, levels -> levels
+  TextOf(_, _),         \* index, stack trace text -> remapped text
   BeginOf(_, _, _),     \* index, frame, with-parameter-index -> iterator state
   StepOf(_),            \* iterator state -> [yield, it]
   WrittenOk(_, _)       \* mapping bytes, cache bytes -> well-formed and denoting the index
@@ -140,6 +142,11 @@ Sig(h, s, got) ==
 Typed(h, levels, got) ==
   /\ handles[h] # NoObj
   /\ handles[h].indomain => got = TypedOf(handles[h].index, levels)
+  /\ UNCHANGED svars
+
+Text(h, text, got) ==
+  /\ handles[h] # NoObj
+  /\ handles[h].indomain => got = TextOf(handles[h].index, text)
   /\ UNCHANGED svars
 
 IterBegin(i, h, frame) ==
